@@ -542,7 +542,9 @@ func execute(c Case, tapes *[][]uint32) batch.Result {
 				}
 				verifsim.WGWait(&wg)
 			case 4:
-				// concurrent clients asking for method implementations
+				// concurrent clients asking for method implementations; all
+				// callers must get the very same function for a selection
+				handed := map[string]*ir.Function{}
 				for _, name := range chk.order[2:] {
 					tp := chk.pkgs[name]
 					for _, tn := range []string{"Wrap", "PWrap", "Deep", "IW"} {
@@ -563,6 +565,11 @@ func execute(c Case, tapes *[][]uint32) batch.Result {
 										continue
 									}
 									r.cnt["method_value_calls"]++
+									hk := types.TypeString(T, nil) + "." + ms.At(i).Obj().Name()
+									if prev, ok := handed[hk]; ok && prev != fn {
+										r.fail("function-created-more-than-once", "two callers of MethodValue(%s) got two distinct functions (%p and %p): the wrapper was created twice", ms.At(i), prev, fn)
+									}
+									handed[hk] = fn
 									if want, ok := ref[fnKey(fn)]; ok {
 										got := dumpFn(fn)
 										if got != want[0] {
